@@ -118,7 +118,24 @@ func (e *Engine) verifyContract(ct *Contract) (rep *FuncReport) {
 		}
 		ct = &ct2
 	}
+	e.heapWrites[c.fn] = nil
 	e.runFunc(c, ct, fd)
+	// frame: heap fields written must be declared (modifies-heap); none declared = read-only on heap structures
+	if ct.Yields != "" || len(ct.ModifiesHeap) > 0 || ct.ReadOnlyHeap {
+		declared := map[string]bool{}
+		for _, h := range ct.ModifiesHeap {
+			declared[h] = true
+		}
+		var bad []string
+		for _, h := range e.heapWrites[c.fn] {
+			if !declared[h] {
+				bad = append(bad, h)
+			}
+		}
+		if ct.ReadOnlyHeap || len(bad) > 0 {
+			c.oblige("frame:heap", "", tTrue, boolTerm(len(bad) == 0), fd.Pos(), "no store to heap fields other than the declared ones; undeclared: "+strings.Join(dedup(bad), ","))
+		}
+	}
 	rep.Status = "generated"
 	rep.obls = c.obls
 	rep.NumObl = len(c.obls)
@@ -643,7 +660,15 @@ func (e *Engine) smtText(o *Oblig, extra string, splitCase string) string {
 		b.WriteString(extra + "\n")
 	}
 	b.WriteString("(check-sat)\n")
-	return b.String()
+	text := b.String()
+	// cvc5 rejects constant arrays of a non-value element: name the all-empty string array
+	const ca = "((as const (Array Int Str)) str!empty)"
+	if strings.Contains(text, ca) {
+		text = strings.ReplaceAll(text, ca, "str!zeros")
+		decl := "(declare-const str!zeros (Array Int Str))\n(assert (forall ((i Int)) (! (= (select str!zeros i) str!empty) :pattern ((select str!zeros i)))))\n"
+		text = strings.Replace(text, "(declare-fun str!cat", decl+"(declare-fun str!cat", 1)
+	}
+	return text
 }
 
 // verifyGlobalInit checks that a global's initializer expression establishes
